@@ -328,11 +328,131 @@ def eval_case(case, row):
     rng = random.Random(case.get("flip_seed", 0))
     flips = []
     for name, (a, b) in obs["regions"].items():
+        # the regions come from the INPUT sizes (expected layout); an export that is shorter than its layout says must be judged by
+        # the ROM oracle (reject -> concrete violation), never crash the harness: only positions inside the emitted bytes are flipped
+        a, b = min(a, len(e)), min(b, len(e))
+        if b <= a:
+            continue
         for _ in range(case.get("flips", FLIPS_PER_REGION)):
             pos = rng.randrange(a, b)
             flips.append((name, pos, rng.randrange(8)))
     obs["flips"] = flips
     return obs, fails
+
+
+# ---------------------------------------------------------------------------------------------- header-less "Vx" images (phase 3)
+def vx_kind(mixins):
+    return "signed" if C1._has(mixins, "EccSignVx") else "crc" if C1._has(mixins, "CrcSignBca") else "plain"
+
+
+def vx_regions(kind, case, n):
+    """byte ranges of a Vx image: (protected ranges, ranges the format leaves unprotected) - from the layout description alone"""
+    if kind == "plain":
+        return {}, {"image": (0, n)}
+    if kind == "crc":
+        return {"bca_crc_words": (0x3C4, 0x3D0), "data": (0xC00, n)}, {"header": (0, 0x3C4), "header_rest": (0x3D0, 0xC00)}
+    prot = {"header": (0, 0x360), "digest": (0x360, 0x380), "signature": (0x380, 0x3C0), "bca": (0x3C0, 0x400),
+            "isk_cert": (0x410, 0x498), "data": (0xC00, n)}
+    if case.get("add_hash"):
+        prot["isk_hash"] = (0x4A0, 0x4B0)
+    return {k: v for k, v in prot.items() if v[1] > v[0]}, {"fcf": (0x400, 0x410), "wpc_duk_area": (0x4B0, 0xC00)}
+
+
+def vx_eval(case, row, flips):
+    """real-code side for a Vx row: export + sampled flip positions (protected regions and the unprotected ones)"""
+    mixins = row[6]
+    kind = vx_kind(mixins)
+    r = pyres(C1.build, case, row)
+    if r[0] != "ok":
+        return None, [("option set could not be constructed", r, None)]
+    obj, _sp = r[1]
+    r = pyres(obj.export)
+    if r[0] != "ok":
+        return None, [("export of a valid option set raised", r, None)]
+    e = bytes(r[1])
+    prot, unprot = vx_regions(kind, case, len(e))
+    clamp = lambda d: {k: (min(v[0], len(e)), min(v[1], len(e))) for k, v in d.items() if min(v[1], len(e)) > min(v[0], len(e))}  # noqa: E731
+    prot, unprot = clamp(prot), clamp(unprot)
+    rng = random.Random(case.get("flip_seed", 0))
+    fl = []
+    for name, (a, b) in prot.items():
+        for _ in range(flips):
+            fl.append((name, rng.randrange(a, b), rng.randrange(8), True))
+    for name, (a, b) in unprot.items():
+        fl.append((name, rng.randrange(a, b), rng.randrange(8), False))
+    return {"export": e, "kind": kind, "flips": fl}, []
+
+
+def run_vx(ck, drv, rows):
+    """Spec/MbiRomVx.lean (compiled, driver op `romvx`) on the REAL export of every mc56 / mwct row"""
+    sv = ck.stream("vx_rom_accepts", "every mc56f81xxx / mwct20x2 row (header-less 'Vx' images: plain, CRC in the BCA, ECC signed with ISK certificate), C01 option generator "
+                   "(payload >= 0xC00, life cycle, firmware version, ISK hash stored or not): the independent Vx ROM model (Spec/MbiRomVx.lean) accepts the real export and both "
+                   "ECDSA obligations (root key -> ISK certificate, ISK key -> image) verify with `cryptography`; header-only exports must be refused; non-trivial = distinct (row, options, payload)")
+    svf = ck.stream("vx_bit_flips", "single-bit corruptions of accepted Vx images: in every protected region (CRC words / data part; header below the digest, digest, signature, BCA, "
+                    "ISK certificate, stored ISK hash, data part) the verdict must flip; in the regions the FORMAT leaves unprotected (flash configuration field, WPC / DUK area "
+                    "0x4B0..0xC00, header of CRC images) the ROM model's verdict must NOT flip (the reference verifier covers exactly the format's ranges)")
+    vx = [ri for ri, r in enumerate(rows) if C1._has(r[6], "BcaTable")]
+    if not vx:
+        return
+    root_pub = ecc_pub_raw(C1._file(C1.KC_ECC / "ec_secp256r1_cert0.pem")).hex()
+    draws, flips = ck.budget(2, 12), ck.budget(2, 5)
+    jobs = []
+    for ri in vx:
+        row = rows[ri]
+        rng = random.Random(ck.rng.getrandbits(64))
+        for d in range(draws):
+            case = C1.gen_case(rng, row, d + 8, not ck.quick)
+            case["malformed"], case["cfg_rt"] = 0, False
+            just_header = bool(case.get("just_header"))
+            case["flip_seed"] = rng.getrandbits(32)
+            inp = {"row": list(row[:5]), "case": case}
+            try:
+                obs, fails = vx_eval(case, row, flips)
+            except Exception as exc:  # noqa: BLE001
+                import traceback
+                obs, fails = None, [("evaluation of a Vx case crashed: " + type(exc).__name__, traceback.format_exc()[-1500:], None)]
+            for what, o, x in fails:
+                sv.expect(False, inp, what, o, x)
+            if obs is None:
+                continue
+            jobs.append((row, inp, obs, just_header))
+    if drv is None:
+        return
+    lines = []
+    for row, inp, obs, jh in jobs:
+        env = f"kind={obs['kind']} rootpub={root_pub} iskhash={int(bool(inp['case'].get('add_hash')))}"
+        obs["imgs"] = [obs["export"]]
+        for name, pos, bit, _ in ([] if jh else obs["flips"]):
+            b = bytearray(obs["export"])
+            b[pos] ^= 1 << bit
+            obs["imgs"].append(bytes(b))
+        obs["first"] = len(lines)
+        lines += [f"romvx {env} data={i.hex()}" for i in obs["imgs"]]
+    answers = drv.batch(lines)
+    for row, inp, obs, jh in jobs:
+        ans = answers[obs["first"]:obs["first"] + len(obs["imgs"])]
+        sv.note((inp["row"], inp["case"]), cls=obs["kind"] + ("/header-only" if jh else ""))
+        ok, why, _ = rom_verdict(ans[0], obs["imgs"][0])
+        if ok is None:
+            sv.compare(inp, "accept … | reject:…", why[:120], "the Vx ROM spec driver gave no verdict (neither accept nor reject): the acceptance oracle cannot be evaluated")
+            continue
+        if jh:
+            sv.expect(not ok, inp, "a header-only export (no data part) is accepted by the Vx ROM model", why[:200], "reject")
+            continue
+        sv.expect(ok, inp, "the independent Vx ROM model does not accept an image SPSDK exported", why[:300], "accept")
+        if not ok:
+            continue
+        for (name, p, bit, prot), a, img in zip(obs["flips"], ans[1:], obs["imgs"][1:]):
+            svf.note((inp["row"], hash(obs["export"]), p, bit), cls=("" if prot else "unprotected:") + name)
+            ok2, why2, _ = rom_verdict(a, img)
+            fi = {**inp, "flip": [name, p, bit]}
+            if ok2 is None:
+                svf.compare(fi, "accept … | reject:…", why2[:120], "the Vx ROM spec driver gave no verdict on a corrupted image")
+            elif prot:
+                svf.expect(not ok2, fi, f"a single-bit corruption in protected region '{name}' of a Vx image is still accepted by the ROM model", why2[:200], "reject")
+            else:
+                svf.expect(ok2, fi, f"a single-bit corruption in region '{name}', which the format leaves outside digest / signature / CRC, changes the ROM model's verdict "
+                           "(the reference verifier covers more than the format defines)", why2[:200], "accept")
 
 
 ROWS = None
@@ -352,6 +472,9 @@ def _work(task):
     out = []
     for d in range(draws + len(forced)):
         case = C1.gen_case(rng, row, d + 8, thorough)   # payload length classes from 0x40 on (shorter ones: C01; HMAC images need 64 bytes)
+        if d == 0 and C1._has(row[6], "RelocTable") and C1._has(row[6], "AppTrustZoneCertBlockEncrypt", "HmacKeyStoreFinalize") and "reloc" not in case:
+            # systematic: every encrypted / HMAC row gets a relocation table on its first draw (post_encrypt's slice bound, HMAC offsets)
+            C1.force_reloc(rng, case)
         if d >= draws:
             # systematic chain cases: root set x signing root x ISK (see ISK_CHAIN_SPECS)
             cv, n, used, isk = forced[d - draws]
@@ -384,7 +507,7 @@ def run(ck):
     ck.lean_obligations(generated=["MbiClasses", "IvtConsts"])
     # both ops of drv_c02 (`rom`: Spec/MbiRom.lean romCheck, `rotkh`: Spec/Rotkh.lean) evaluate Spec-only definitions: the driver
     # imports nothing generated from /repo and no model of the code (Driver/C02.lean: Spec.MbiRom, Spec.Rotkh, Crypto.Exec)
-    ck.spec_ops = {"rom", "rotkh"}
+    ck.spec_ops = {"rom", "rotkh", "romvx"}
     drv = ck.driver()
     ROWS = C1.live_rows()
     C1.ROWS = ROWS
@@ -393,7 +516,7 @@ def run(ck):
               "X.509 parsing and RSA / ECDSA verification of the obligations are `cryptography`'s (OpenSSL); SHA-2, HMAC, AES, CRC are the Lean reference implementations (validated by C09)",
               "key store content is not authenticated by anything in the format (bit flips there are expected to be accepted and are not sampled)",
               "RSA certificate chains come from the repository's test data (depth 1-3, 2048-4096 bit), EC root sets of 1-4 keys P-256 / P-384 with every signing root, with and without ISK / ISK user data",
-              "mc56 (Vx) images are not covered (no IVT, documented only as far as mbi_mixin.py goes)")
+              "mc56 / mwct (Vx) images: the ROM model Spec/MbiRomVx.lean is written from the layout mbi_mixin.py documents (digest + ECDSA with the ISK key, ISK certificate signed by the root key, BCA CRC words); the WPC / DUK areas are not authenticated by that format")
     prot = [ri for ri, r in enumerate(ROWS) if protected(r[6])]
     draws = ck.budget(2, 30)
     flips = ck.budget(2, 6)
@@ -427,6 +550,7 @@ def run(ck):
             for case, obs, fails in out:
                 for what, o, x in fails:
                     s.expect(False, {"row": list(ROWS[ri][:5]), "case": case}, what, o, x)
+        run_vx(ck, None, ROWS)
         return
     drivers = [drv]
     for _ in range(3):
@@ -505,6 +629,7 @@ def run(ck):
                     continue
                 sf.expect(not ok2, {**inp, "flip": [name, p, bit]},
                           f"a single-bit corruption in region '{name}' is still accepted by the ROM model (the region is not covered by any check)", why2[:200], "reject")
+    run_vx(ck, drv, ROWS)
 
 
 def replay(ck, data):
